@@ -170,6 +170,41 @@ def _gen_http_headers(headers):
     return retval
 
 
+class _ResponseIterator(object):
+    """Hands the response body over to the WSGI server and runs ``finalize``
+    exactly once afterwards -- either when the body is exhausted or when the
+    server calls ``close()`` (e.g. because the client went away)."""
+
+    def __init__(self, out_string, finalize):
+        self._out_string = iter(out_string)
+        self._finalize = finalize
+        self._finalized = False
+
+    def __iter__(self):
+        return self
+
+    def __next__(self):
+        try:
+            return next(self._out_string)
+        except StopIteration:
+            self.close()
+            raise
+
+    next = __next__
+
+    def close(self):
+        if self._finalized:
+            return
+        self._finalized = True
+
+        try:
+            close = getattr(self._out_string, 'close', None)
+            if close is not None:
+                close()
+        finally:
+            self._finalize()
+
+
 class WsgiTransportContext(HttpTransportContext):
     """The class that is used in the transport attribute of the
     :class:`WsgiMethodContext` class."""
@@ -369,11 +404,7 @@ class WsgiApplication(HttpBase):
                                                     str(len(ctx.transport.wsdl))
         start_response(HTTP_200, _gen_http_headers(ctx.transport.resp_headers))
 
-        retval = ctx.transport.wsdl
-
-        ctx.close()
-
-        return [retval]
+        return _ResponseIterator([ctx.transport.wsdl], ctx.close)
 
     def handle_error(self, p_ctx, others, error, start_response):
         """Serialize errors to an iterable of strings and return them.
@@ -406,7 +437,8 @@ class WsgiApplication(HttpBase):
             # Report but ignore any exceptions from auxiliary methods.
             logger.exception(e)
 
-        return chain(p_ctx.out_string, self.__finalize(p_ctx))
+        return _ResponseIterator(p_ctx.out_string,
+                                               lambda: self.__finalize(p_ctx))
 
     def handle_rpc(self, req_env, start_response):
         initial_ctx = WsgiMethodContext(self, req_env,
@@ -504,7 +536,8 @@ class WsgiApplication(HttpBase):
         start_response(p_ctx.transport.resp_code,
                                 _gen_http_headers(p_ctx.transport.resp_headers))
 
-        retval = chain(p_ctx.out_string, self.__finalize(p_ctx))
+        retval = _ResponseIterator(p_ctx.out_string,
+                                               lambda: self.__finalize(p_ctx))
 
         try:
             process_contexts(self, others, p_ctx, error=None)
@@ -517,8 +550,6 @@ class WsgiApplication(HttpBase):
     def __finalize(self, p_ctx):
         p_ctx.close()
         self.event_manager.fire_event('wsgi_close', p_ctx)
-
-        return ()
 
     def __reconstruct_wsgi_request(self, http_env):
         """Reconstruct http payload using information in the http header."""
